@@ -59,7 +59,11 @@ Inl(i, e) ==
     [] i = 24 -> Sn(<<"\\# a">>, "# a", FALSE)
     [] i = 25 -> Sn(<<"a", "\\===">>, "a" \o e \o "===", FALSE)
     [] i = 26 -> Sn(<<"a", "\\- b">>, "a" \o e \o "- b", FALSE)
-NInl == 26
+    \* an escaped backslash before an escaped punctuation character, and an escaped ampersand before an entity name, in a destination and a title
+    [] i = 27 -> Sn(<<"[t](/a\\\\\\*b \"c\\\\\\*d \\&amp;\")">>, "<a href=\"/a%5C*b\" title=\"c\\*d &amp;amp;\">t</a>", FALSE)
+    \* shortcut and collapsed references whose label (= text) is broken across lines
+    [] i = 28 -> Sn(<<"[r", "s] [r", "s][]">>, "<a href=\"/rs\" title=\"st\">r" \o e \o "s</a> <a href=\"/rs\" title=\"st\">r" \o e \o "s</a>", TRUE)
+NInl == 28
 SingleLine(i) == Len(Inl(i, "\n").lines) = 1
 \* code content: lines, and their escaped html (each line followed by the EOL)
 Code(c) == CASE c = 1 -> [lines |-> <<"x">>, html |-> <<"x">>]
@@ -152,7 +156,7 @@ RootLines(roots, ch) ==
   LET RECURSIVE R(_)
       R(i) == IF i > Len(roots) THEN <<>>
               ELSE (IF i > 1 THEN (IF ch.blank2 THEN <<Blank, Blank>> ELSE <<Blank>>) ELSE <<>>) \o Ser(roots[i], AfterList(roots, i, ch), FALSE, FALSE) \o R(i + 1)
-  IN R(1) \o (IF UsesRef(roots) THEN <<Blank, Ln("[r]: /ru \"rt\"", FALSE)>> ELSE <<>>)
+  IN R(1) \o (IF UsesRef(roots) THEN <<Blank, Ln("[r]: /ru \"rt\"", FALSE), Ln("[r s]: /rs \"st\"", FALSE)>> ELSE <<>>)
 RECURSIVE JoinLines(_, _, _, _)
 JoinLines(ls, e, final, i) == IF i > Len(ls) THEN ""
                               ELSE ls[i].s \o (IF i < Len(ls) \/ final THEN e ELSE "") \o JoinLines(ls, e, final, i + 1)
@@ -177,7 +181,7 @@ Den(nd, tight, c) ==
     [] k = "ol" -> (IF c.ostart # 1 THEN "<ol start=\"" \o Digits(c.ostart) \o "\">" ELSE "<ol>") \o DenSeq(nd[3], nd[2], c) \o "</ol>"
     [] k = "li" -> "<li>" \o DenSeq(nd[3], tight, c) \o "</li>"
 DenSeq(kids, tight, c) == IF kids = <<>> THEN "" ELSE Den(Head(kids), tight, c) \o DenSeq(Tail(kids), tight, c)
-Denote(roots, c) == [i \in 1..Len(roots) |-> Den(roots[i], FALSE, c)] \o (IF UsesRef(roots) THEN <<"">> ELSE <<>>)
+Denote(roots, c) == [i \in 1..Len(roots) |-> Den(roots[i], FALSE, c)] \o (IF UsesRef(roots) THEN <<"", "">> ELSE <<>>)
 RECURSIVE HasKind(_, _)
 HasKind(kids, kind) == \E j \in 1..Len(kids) : kids[j][1] = kind \/ (kids[j][1] \in {"quote", "ul", "ol", "li"} /\ HasKind(kids[j][3], kind))
 
@@ -187,14 +191,14 @@ HasKind(kids, kind) == \E j \in 1..Len(kids) : kids[j][1] = kind \/ (kids[j][1] 
 \* (snippets 15, 16, 17, 20: the formatter copies their source verbatim and re-indents it).
 FmtMode == LeafSet \in {"fstructure", "finline", "fcode"}
 FmtInl == (1..NInl) \ {7}
-MultiLineVerbatim(i) == i \in {15, 16, 17, 20}
+MultiLineVerbatim(i) == i \in {15, 16, 17, 20, 28}
 Leaves ==
   CASE LeafSet \in {"structure", "fstructure"} -> {<<"para", 1, <<>>>>, <<"para", 2, <<>>>>, <<"atx", <<2, 1>>, <<>>>>, <<"setext", <<1, 2>>, <<>>>>, <<"hr", 0, <<>>>>,
                                  <<"fence", <<TRUE, 2>>, <<>>>>, <<"icode", 1, <<>>>>, <<"html", 1, <<>>>>}
     [] LeafSet = "inline" -> {<<"para", i, <<>>>> : i \in 1..NInl} \cup {<<"atx", <<3, i>>, <<>>>> : i \in {j \in 1..NInl : SingleLine(j)}}
-                             \cup {<<"setext", <<2, i>>, <<>>>> : i \in {2, 6, 14, 15, 16, 20}}
+                             \cup {<<"setext", <<2, i>>, <<>>>> : i \in {2, 6, 14, 15, 16, 20, 28}}
     [] LeafSet = "finline" -> {<<"para", i, <<>>>> : i \in FmtInl} \cup {<<"atx", <<3, i>>, <<>>>> : i \in {j \in FmtInl : SingleLine(j)}}
-                              \cup {<<"setext", <<2, i>>, <<>>>> : i \in {2, 6, 14, 15, 16, 20}}
+                              \cup {<<"setext", <<2, i>>, <<>>>> : i \in {2, 6, 14, 15, 16, 20, 28}}
     [] LeafSet \in {"code", "fcode"} -> {<<"fence", <<b, c>>, <<>>>> : b \in BOOLEAN, c \in 1..3} \cup {<<"icode", c, <<>>>> : c \in 1..3}
                            \cup {<<"html", h, <<>>>> : h \in 1..3} \cup {<<"para", 1, <<>>>>, <<"hr", 0, <<>>>>}
 Containers == {<<"quote", FALSE>>, <<"ul", TRUE>>, <<"ul", FALSE>>, <<"ol", TRUE>>, <<"ol", FALSE>>}
@@ -248,5 +252,5 @@ ChoiceOK == /\ (ch.eol # "\n" => ch.final)
 Emit == (Complete /\ ChoiceOK) => PrintT(ToJson([md |-> Markdown(stack[1].kids, ch), html |-> Denote(stack[1].kids, ch), ch |-> ch]))
 
 \* model-level sanity: the denotation has one entry per root block (plus the empty rendering of the definition)
-DenoteShape == Complete => Len(Denote(stack[1].kids, ch)) = Len(stack[1].kids) + (IF UsesRef(stack[1].kids) THEN 1 ELSE 0)
+DenoteShape == Complete => Len(Denote(stack[1].kids, ch)) = Len(stack[1].kids) + (IF UsesRef(stack[1].kids) THEN 2 ELSE 0)
 =============================================================================
